@@ -49,6 +49,14 @@ class Raised(Exception):
         self.exc = exc
 
 
+class _Break(Exception):
+    pass
+
+
+class _Continue(Exception):
+    pass
+
+
 class Returned(Exception):
     def __init__(self, value):
         self.value = value
@@ -156,6 +164,8 @@ class Evaluator:
                     return v[i]
                 except IndexError as ex:
                     raise Uninterpretable(f"index out of range in {ast.unparse(e)}") from ex
+            if isinstance(v, Sym):
+                return Sym(f"{v!r}[{i!r}]")
             raise Uninterpretable(f"subscript {ast.unparse(e)}")
         if isinstance(e, ast.Dict):
             out = {}
@@ -207,7 +217,11 @@ class Evaluator:
                     out += str(x) if isinstance(x, (str, int, float)) else repr(x)
             return out
         if isinstance(e, ast.BinOp):
-            l, r = self.ev(e.left, env), self.ev(e.right, env)
+            return self.binop(e, self.ev(e.left, env), self.ev(e.right, env))
+        return self.ev2(e, env)
+
+    def binop(self, e, l, r):
+        if True:
             if isinstance(e.op, ast.Add) and isinstance(l, str) and isinstance(r, str):
                 return l + r
             if isinstance(e.op, ast.Add) and isinstance(l, (tuple, int)) and type(l) is type(r):
@@ -225,7 +239,24 @@ class Evaluator:
                     return set(l) & set(r)
                 if isinstance(e.op, ast.Sub):
                     return set(l) - set(r)
+            num = lambda x: isinstance(x, (int, float)) and not isinstance(x, bool)  # noqa: E731
+            if num(l) and num(r):
+                if isinstance(e.op, ast.Add):
+                    return l + r
+                if isinstance(e.op, ast.Sub):
+                    return l - r
+                if isinstance(e.op, ast.Mult):
+                    return l * r
+                if isinstance(e.op, ast.FloorDiv) and r != 0:
+                    return l // r
+                if isinstance(e.op, ast.Mod) and r != 0:
+                    return l % r
+            if isinstance(l, Sym) or isinstance(r, Sym):
+                # opaque arithmetic on opaque values stays opaque
+                return Sym(f"({l!r} {type(e.op).__name__} {r!r})")
             raise Uninterpretable(f"binop {ast.unparse(e)}")
+
+    def ev2(self, e, env):
         if isinstance(e, ast.BoolOp):
             if isinstance(e.op, ast.And):
                 v = True
@@ -240,6 +271,18 @@ class Evaluator:
             return False
         if isinstance(e, ast.UnaryOp) and isinstance(e.op, ast.Not):
             return not self.truth(self.ev(e.operand, env))
+        if isinstance(e, ast.UnaryOp) and isinstance(e.op, (ast.USub, ast.UAdd)):
+            v = self.ev(e.operand, env)
+            if isinstance(v, (int, float)) and not isinstance(v, bool):
+                return -v if isinstance(e.op, ast.USub) else v
+            raise Uninterpretable(f"unary minus of {ast.unparse(e.operand)}")
+        if isinstance(e, ast.Compare) and len(e.ops) > 1:
+            left = e.left
+            for op_, right in zip(e.ops, e.comparators):
+                if not self.truth(self.ev(ast.Compare(left=left, ops=[op_], comparators=[right]), env)):
+                    return False
+                left = right
+            return True
         if isinstance(e, ast.Compare) and len(e.ops) == 1:
             l, r = self.ev(e.left, env), self.ev(e.comparators[0], env)
             op = e.ops[0]
@@ -327,6 +370,11 @@ class Evaluator:
             if not isinstance(d, (dict, list)):
                 raise Uninterpretable(f"item assignment on {ast.unparse(target.value)}")
             d[k] = value
+        elif isinstance(target, ast.Attribute):
+            o = self.ev(target.value, env)
+            if not isinstance(o, Obj):
+                raise Uninterpretable(f"attribute assignment on {ast.unparse(target.value)}")
+            o.attrs[target.attr] = value
         elif isinstance(target, (ast.Tuple, ast.List)):
             if not isinstance(value, (tuple, list)):
                 raise Uninterpretable("tuple unpacking")
@@ -514,6 +562,14 @@ class Evaluator:
             return True
         if isinstance(pat, ast.MatchOr):
             return any(self.match_pattern(p_, subject, env) for p_ in pat.patterns)
+        if isinstance(pat, ast.MatchSequence):
+            if not isinstance(subject, (tuple, list)):
+                return False
+            if any(isinstance(p_, ast.MatchStar) for p_ in pat.patterns):
+                raise Uninterpretable("starred sequence pattern")
+            if len(pat.patterns) != len(subject):
+                return False
+            return all(self.match_pattern(p_, x, env) for p_, x in zip(pat.patterns, subject))
         if isinstance(pat, ast.MatchClass) and not pat.patterns and not pat.kwd_patterns:
             cname = ast.unparse(pat.cls).split(".")[-1]
             if cname in ("int", "float", "str", "bool"):
@@ -561,12 +617,10 @@ class Evaluator:
             elif isinstance(s, ast.AugAssign) and isinstance(s.target, ast.Name):
                 cur = self.ev(s.target, env)
                 inc = self.ev(s.value, env)
-                if isinstance(s.op, ast.Add):
-                    env[s.target.id] = cur + inc
-                elif isinstance(s.op, ast.Mult):
-                    env[s.target.id] = cur * inc
+                if isinstance(cur, list) and isinstance(s.op, ast.Add):
+                    cur.extend(self.iterate(inc, s.value))  # in-place, as Python does
                 else:
-                    raise Uninterpretable("augmented assignment")
+                    env[s.target.id] = self.binop(ast.BinOp(left=s.target, op=s.op, right=s.value), cur, inc)
             elif isinstance(s, ast.FunctionDef):
                 env[s.name] = s
             elif isinstance(s, (ast.Import, ast.ImportFrom)):
@@ -577,9 +631,22 @@ class Evaluator:
                 else:
                     self.block(s.orelse, env)
             elif isinstance(s, ast.For):
+                broke = False
                 for x in self.iterate(self.ev(s.iter, env), s.iter):
                     self.bind(s.target, x, env)
-                    self.block(s.body, env)
+                    try:
+                        self.block(s.body, env)
+                    except _Continue:
+                        continue
+                    except _Break:
+                        broke = True
+                        break
+                if not broke and s.orelse:
+                    self.block(s.orelse, env)
+            elif isinstance(s, ast.Break):
+                raise _Break()
+            elif isinstance(s, ast.Continue):
+                raise _Continue()
             elif isinstance(s, ast.Return):
                 raise Returned(self.ev(s.value, env) if s.value is not None else None)
             elif isinstance(s, ast.Raise):
